@@ -17,15 +17,18 @@ Proof. rewrite lcut_eq. reflexivity. Qed.
 Lemma split_eol_app l : fst (split_eol l) ++ snd (split_eol l) = l.
 Proof.
   induction l as [|b r IH]; [reflexivity|].
-  cbn [split_eol]. destruct (forallb is_crlf (b :: r)); [reflexivity|].
-  destruct (split_eol r) as [body eol]. cbn [fst snd app] in *. rewrite IH. reflexivity.
+  cbn [split_eol]. destruct (split_eol r) as [body eol]. cbn [fst snd] in IH.
+  destruct body as [|x body'].
+  - cbn [app] in IH. subst r. destruct (is_crlf b); reflexivity.
+  - cbn [fst snd app] in *. rewrite IH. reflexivity.
 Qed.
 
 Lemma split_eol_crlf l : forallb is_crlf (snd (split_eol l)) = true.
 Proof.
   induction l as [|b r IH]; [reflexivity|].
-  cbn [split_eol]. destruct (forallb is_crlf (b :: r)) eqn:E; [exact E|].
-  destruct (split_eol r) as [body eol]. exact IH.
+  cbn [split_eol]. destruct (split_eol r) as [body eol]. cbn [snd] in IH.
+  destruct body as [|x body']; [|exact IH].
+  destruct (is_crlf b) eqn:E; cbn [snd forallb]; [rewrite E; exact IH|exact IH].
 Qed.
 
 Lemma parse_tag_ast_sound p kv : parse_tag_ast p = Some kv -> render_tag kv = p.
@@ -161,15 +164,19 @@ Qed.
 (* ---- completeness: parse_ast inverts render on well-formed ASTs --------------------------- *)
 
 Lemma split_eol_all l : forallb is_crlf l = true -> split_eol l = ([], l).
-Proof. intros H. destruct l; cbn [split_eol]; rewrite ?H; reflexivity. Qed.
+Proof.
+  induction l as [|b r IH]; intros H; [reflexivity|].
+  cbn [forallb] in H. apply Bool.andb_true_iff in H. destruct H as [Hb Hr].
+  cbn [split_eol]. rewrite (IH Hr), Hb. reflexivity.
+Qed.
 
 Lemma split_eol_clean body eol : forallb clean body = true -> forallb is_crlf eol = true ->
   split_eol (body ++ eol) = (body, eol).
 Proof.
   intros Hb He. induction body as [|b r IH]; [apply split_eol_all; exact He|].
   cbn [forallb] in Hb. apply Bool.andb_true_iff in Hb. destruct Hb as [Hb Hr].
-  cbn [app split_eol forallb]. unfold clean in Hb. apply Bool.negb_true_iff in Hb. rewrite Hb. cbn [andb].
-  rewrite (IH Hr). reflexivity.
+  cbn [app split_eol]. rewrite (IH Hr). unfold clean in Hb. apply Bool.negb_true_iff in Hb.
+  destruct r; [rewrite Hb|]; reflexivity.
 Qed.
 
 Lemma wf_tag_key_notin kv c : wf_tag kv = true -> key_or_plus c = false -> ~ In c (fst kv).
